@@ -2,8 +2,9 @@
 
 Decided: the inner vector can only be created sorted+deduplicated (R1), is never handed out
 mutably (R2), `union` only appends in order (R3, structural part), lookups use binary search
-consistently (R4). Not decided: that `union` returns exactly the set union for every
-interleaving (value reasoning).
+consistently (R4), `union` drops no operand and no element unless known empty / compared Equal
+(R7, conservation on every path). Not decided: that `union` returns exactly the set union for
+every interleaving (value reasoning; R3 + R7 are its structural necessary conditions).
 """
 
 import re
@@ -259,6 +260,119 @@ def run(ctx, prog, res):
                 r6.check(b is None, {"fn": nm, "vectors": 32, "needles": 7, "evaluations": n_eval // 2}, "C20.R6:%s" % nm,
                          "" if b is None else "%s(%r) on %r gives %r, the set says %r" % (nm, b[1], b[0], b[2], b[3]), lib.where_of(fns[nm]))
     r6.floor(2)
+
+    # R7 -------------------------------------------------------------------------------------
+    r7 = res.rule("C20.R7", "`union` loses nothing: on every path to a result, each operand is moved into the result (returned, appended with `extend`, or handed to the recursive call) unless the path has established that its slice is empty; and every element popped is pushed back, except one of two elements the path has compared `Equal`")
+    import pathterms
+    result_blocks = []
+    for bb, b in un.live_blocks():
+        for st in b["stmts"]:
+            if st["k"] == "assign" and st["dst"]["l"] == 0 and not st["dst"]["p"]:
+                result_blocks.append(bb)
+    result_blocks = sorted(set(result_blocks))
+    if not result_blocks:
+        r7.anchor_missing("an assignment of the result in union")
+
+    def moved_params(bb):
+        """Parameters moved (whole, or their inner vector) out in block bb: into the result, into a call."""
+        out = set()
+        blk = un.blocks[bb]
+        ops = []
+        for st in blk["stmts"]:
+            if st["k"] == "assign" and st["rv"]["k"] == "use":
+                ops.append(st["rv"]["op"])
+        if blk["term"]["k"] == "call":
+            ops.extend(blk["term"]["args"])
+        for o in ops:
+            if o.get("k") != "move":
+                continue
+            pl = lib.operand_place(o)
+            if pl is None or pl["l"] not in (1, 2):
+                continue
+            proj = [e for e in pl["p"]]
+            if not proj or (len(proj) == 1 and isinstance(proj[0], dict) and proj[0].get("n") == "0"):
+                out.add(pl["l"])
+        return out
+
+    def len_of(op, depth=6):
+        """Parameters of which `op` is the slice length (slice metadata or a `len()` call)."""
+        pl = lib.operand_place(op)
+        if pl is None or depth == 0:
+            return set()
+        out = set()
+        for _, n in un.defs_of(pl["l"]):
+            if n["k"] == "assign" and n["rv"]["k"] == "use":
+                out |= len_of(n["rv"]["op"], depth - 1)
+            elif n["k"] == "assign" and n["rv"]["k"] == "un" and n["rv"]["op"] == "PtrMetadata":
+                out |= flow.root_params(un, n["rv"]["a"])
+            elif n["k"] == "call" and re.search(r"::len$", flow.call_name(n)):
+                out |= flow.root_params(un, n["args"][0])
+        return out
+
+    def known_empty(path):
+        """Parameters whose slice the path has found empty: `len == 0` on its true edge or `is_empty()`."""
+        out = set()
+        for b, nxt in zip(path, path[1:]):
+            d = flow.bool_switch_of(un, b)
+            if d and d["op"] == "Eq" and nxt == d["true_bb"] and nxt != d["false_bb"]:
+                for x, y in ((d["a"], d["b"]), (d["b"], d["a"])):
+                    cs = flow.origin_consts(un, y)
+                    if len(cs) == 1 and cs[0].get("int") == 0:
+                        ps = len_of(x)
+                        if len(ps) == 1:
+                            out |= ps
+            t = un.blocks[b]["term"]
+            if t["k"] == "switch":
+                pl = lib.operand_place(t["op"])
+                if pl is not None:
+                    for _, n in un.defs_of(pl["l"]):
+                        if n["k"] == "call" and flow.call_name(n).endswith("::is_empty"):
+                            tg = dict((v, x) for v, x in t["targets"])
+                            true_bb = t["otherwise"] if 0 in tg else tg.get(1)
+                            if nxt == true_bb and nxt != tg.get(0, None):
+                                ps = flow.root_params(un, n["args"][0])
+                                if len(ps) == 1:
+                                    out |= ps
+        return out
+
+    def took_equal(path):
+        for b, nxt in zip(path, path[1:]):
+            t = un.blocks[b]["term"]
+            if t["k"] != "switch":
+                continue
+            pl = lib.operand_place(t["op"])
+            if pl is None:
+                continue
+            for _, n in un.defs_of(pl["l"]):
+                if n["k"] == "assign" and n["rv"]["k"] == "discr":
+                    src = lib.operand_place(n["rv"].get("op") or {"k": "copy", "pl": n["rv"].get("pl")})
+                    calls = flow.origin_calls(un, src["l"]) if src is not None else []
+                    if any(flow.call_name(c).endswith("::cmp") for c in calls):
+                        if [v for v, tgt in t["targets"] if tgt == nxt] == [0] and t["otherwise"] != nxt:
+                            return True
+        return False
+
+    n_paths = 0
+    for rb in result_blocks:
+        for path in pathterms.acyclic_paths(un, rb):
+            n_paths += 1
+            moved = set()
+            for b in path:
+                moved |= moved_params(b)
+            empty = known_empty(path)
+            lost = sorted(p for p in (1, 2) if p not in moved and p not in empty)
+            names = {1: "self", 2: "other"}
+            pops = sum(1 for b in path if un.blocks[b]["term"]["k"] == "call" and flow.call_name(un.blocks[b]["term"]).endswith("::pop"))
+            pushes = sum(1 for b in path if un.blocks[b]["term"]["k"] == "call" and re.search(r"::push$", flow.call_name(un.blocks[b]["term"])))
+            want = 1 if took_equal(path) else 0
+            ok_ops = not lost
+            ok_el = (pops - pushes) == want
+            detail = {"result_block": rb, "path": path, "moved": sorted(names[p] for p in moved), "known_empty": sorted(names[p] for p in empty), "pops": pops, "pushes": pushes, "compared_equal": bool(want)}
+            r7.check(ok_ops, detail, "C20.R7:operand-lost:%s" % ",".join(names[p] for p in lost),
+                     "a path of union returns without `%s` although nothing on the path says it is empty: its elements are dropped (path through blocks %s)" % (",".join(names[p] for p in lost), path), lib.where_of(un))
+            r7.check(ok_el, dict(detail, clause="elements"), "C20.R7:element-lost",
+                     "a path of union pops %d element(s) and pushes %d back%s (path through blocks %s)" % (pops, pushes, " after comparing them Equal" if want else " without having compared them Equal", path), lib.where_of(un))
+    r7.floor(14)
 
     # W compile-time witnesses ---------------------------------------------------------------
     witness.run_doctests(ctx, prog, res, "C20.W", "outside the crate the vector can neither be built unsorted (tuple constructor is private) nor mutated in place (no DerefMut); twins compile", "c20", floor=4)
